@@ -283,6 +283,8 @@ def case_strategy():
 def jobs(tier, seed):
     js = [{"kind": "enum", "shard": s, "nshards": 12} for s in range(12)] + [{"kind": "disconnect", "shard": s, "nshards": 2} for s in range(2)]
     js.append({"kind": "early", "n": 40 if tier == "quick" else 1500, "seed": derive_seed(seed, "c09e")})
+    for i in range(4):
+        js.append({"kind": "race_sys", "index": i, "bound": 2 if tier == "quick" else 3, "max_runs": 5000 if tier == "quick" else 60000})
     for sh in range(4):
         js.append({"kind": "race", "n": 30 if tier == "quick" else 600, "seed": derive_seed(seed, "c09r", sh), "shard": sh, "nshards": 4})
     n = 150 if tier == "quick" else 5000
@@ -314,6 +316,23 @@ def run_job(job, col):
             one(c)
             for _ in range(job["n"] // 8):
                 one(dict(c, schedule={"kind": "hot", "seed": rnd.randrange(10 ** 9), "p_hot": 0.35, "p_cold": 0.02}))
+    elif job["kind"] == "race_sys":
+        # every schedule with at most `bound` deviations from the default one, for four failure x late-request scenarios
+        base = [{"shape": 0, "raise_at": ["call"], "exc": "ValueError", "split": True, "lookahead": 1},
+                {"shape": 3, "raise_at": ["iter", 1], "exc": "ValueError", "split": True, "lookahead": 1},
+                {"shape": 6, "raise_at": ["write", 0], "exc": "OSError", "split": True, "lookahead": 2, "log_socket_errors": False},
+                {"shape": 0, "raise_at": ["start_response"], "exc": "SystemExit", "split": True, "lookahead": 1}][job["index"]]
+
+        def runner_(src):
+            fs, nt, labels, trace, sched = run_case_full(base, source=src, record=True)
+            return sched, (fs, nt, labels)
+
+        n = 0
+        for trace, (fs, nt, labels) in simsched.systematic(runner_, job["bound"], job["max_runs"]):
+            n += 1
+            col.record(dict(base, schedule=S.replay_spec(trace)), fs, nontrivial=nt, labels=set(labels) | {"race-systematic"})
+        if n < job["max_runs"]:
+            col.exhaustive("every schedule with <= %d deviations from the default scheduler for 4 failure x late-arriving-request scenarios" % job["bound"])
     elif job["kind"] == "race":
         import random
         rnd = random.Random(job["seed"])
